@@ -397,3 +397,13 @@ Example C03_ipv4_example_line :
   show_out (process_ipv4_packet mtu_table ok_syn4)
   = bs "syn=4:64+0:0:1460:65535,7:mss,sok,ts,nop,ws:df,id+:0 synack=- mtu=1500 link=45746865726e6574206f72206d6f64656d".
 Proof. exact ok_syn4_shown. Qed.
+
+(* ---- tie to the source: named constants of ttl.rs / tcp_process.rs NOW (Gen/Consts.v is regenerated
+   from /repo on every run) ---- *)
+From HN Require Gen.Consts Proofs.ConstTieTcp.
+Theorem C03_constants_match_source :
+  HN.Model.TcpExtract.MAX_HOPS_ACCEPTABLE = Consts.src_tcp_MAX_HOPS_ACCEPTABLE /\
+  HN.Model.TcpExtract.IP4_MBZ = Consts.src_tcp_IP4_MBZ /\
+  HN.Model.TcpExtract.IP_TOS_CE_ECT = N.lor Consts.src_tcp_IP_TOS_CE Consts.src_tcp_IP_TOS_ECT.
+Proof. exact ConstTieTcp.tcp_constants_tie. Qed.
+Print Assumptions C03_constants_match_source.
